@@ -241,6 +241,9 @@ def main(argv=None):
     a = ap.parse_args(argv)
     seed = int(os.environ.get("VERIF_SEED", "0") or 0)
     pid = a.prop.upper()
+    import warnings
+    warnings.filterwarnings("ignore")
+    warnings.showwarning = lambda *a_, **k_: None      # library warnings are observed explicitly where they matter
     ctx = Ctx(pid, a.tier, seed)
     try:
         mod = importlib.import_module("nv.props." + pid.lower())
